@@ -433,9 +433,14 @@ pub fn run(run: &Run) {
     }
     replay_regress(run, &C14);
     search(run, &C14, run.tier.pick(700, 12_000));
+    run.assume("same-named types in two crates, relative paths and generic parameters spelled like foreign types are covered by the separate scoping family (fixed workspace shape, all path forms)");
+    crate::c14scope::run_family(run);
 }
 
 pub fn replay(run: &Run, case: &serde_json::Value) -> Result<Vec<Violation>, String> {
+    if case.get("clash").is_some() {
+        return crate::c14scope::replay(run, case);
+    }
     replay_case(run, &C14, case)
 }
 
